@@ -52,4 +52,18 @@ META = {
          "(pivot - dist, pivot + dist) - the fact pivot separation rests on - plus the contracts of copy_flush / add / add_annotator / "
          "iter_annotator. Bounded (labelled): the wrapped-translation clauses of sample_from_continuum on seeded draws.",
    note="Known finding (int_pivot mode): truncation can leave the available segment, see known_findings.json. np.random is exercised, not modelled."),
+ "C03": dict(
+   technique="contract-based deductive verification of the disorder kernel (ghost pair-fold, loop invariants, n(n-1)/2 exact) and of the "
+             "disorder clauses of get_best_alignment / get_best_soft_alignment; remaining accessors by a bounded stand-in",
+   level="Proved for all inputs: _compute_alignment_disorders returns for each unitary alignment the fold over the pairs j < i of "
+         "delta_empty-or-d_mat divided by n(n-1)/2 (with 2*C2 == n(n-1)); the alignments returned by the best / soft computations cache "
+         "sum(tau.disorder)/x-bar and each tau carries its candidate's disorder (C07). Bounded (labelled): compute_disorder paths, order independence.",
+   note="Known finding: UnitaryAlignment.compute_disorder (pinned by an existing test), see known_findings.json."),
+ "C04": dict(
+   technique="contract-based deductive verification of the compiled kernels (closures extracted from compile_d_mat, captured variables "
+             "declared and checked) and the d() methods against the documented formulas; lemmas symmetric / non-negative / zero on identical / "
+             "affine invariance over the reals; constructors by a bounded stand-in",
+   level="Proved: positional kernel and method == ((|ds|+|de|)/(sum of durations))^2 * delta, absolute == [labels differ] * delta, precomputed "
+         "kernel reads matrix[c1][c2] with the category index itself (cast modelled exactly), combined kernel == alpha*pos + beta*cat.",
+   note="Bounded only: the constructors' class invariant (one delta_empty), label-order independence of ordinal / numerical matrices."),
 }
